@@ -43,6 +43,9 @@ pub mod gen {
         // round 5: documents nested far deeper than any parser limit (a Value built in code), with several sibling subtrees at the bottom
         c.push(deep_doc(70));
         c.push(deep_doc(200));
+        // shapes that a JSON pointer resolves differently from JSONPath (names on arrays, indexes on objects, `/` in names)
+        c.push(json!(["zero", "one", "zero", {"0": "zero"}]));
+        c.push(json!({"a": {"0": "x", "1": "y"}, "0": "x", "1": "y", "a/b": 2, "b": "x", "c": {"b": 1}}));
         // structurally equal containers at several places (shared allocations in the Rc-based third implementation)
         c.push(json!({"p": {"retries": 3, "k": [1, 2]}, "q": {"retries": 3, "k": [1, 2]}, "r": [{"k": [1, 2]}, {"retries": 3, "k": [1, 2]}], "a": {"k": [1, 2]}}));
         c.push(json!([[1, 2], [1, 2], [[1, 2]], {"a": [1, 2], "b": [1, 2]}]));
@@ -125,6 +128,8 @@ pub mod gen {
             json!([{"a": 1, "b": [1, 2]}, {"a": 3, "b": [1, 2]}, {"a": [1], "b": [[1], 2]}, {"a": [], "b": []}, {"a": [1, 2], "b": [2, 1, 0]}, {"b": [1]}, {"a": 1},
                    {"a": 1, "b": 1}, {"a": [1, 1], "b": [1]}, {"a": [1, 3], "b": [1]}, {"a": [], "b": 7}, {"a": {"k": 1}, "b": [{"k": 1}]}, {"a": "x", "b": ["x", "y"]}, {"a": null, "b": [null]}]),
             json!({"list": [], "elems": [1, [], [1]]}),
+            json!({"list": [1.5, 2.0, 3.25], "elems": [2.0, 2.5, [2.0], 1.5]}),
+            json!({"list": [1, 2, 3], "elems": [2, 2.5, [2]]}),
             json!({"list": 3, "elems": [1, [1], 3]}),
             json!({"list": {"a": 1}, "elems": [1, [1], {"a": 1}]}),
             json!({"elems": {"x": 1, "y": [1], "z": "a"}, "list": [1, "a"]}),
@@ -148,6 +153,9 @@ pub mod gen {
             vec![FnArg::Literal(Literal::Int(1)), abs("list")],         // f(1, $.list)
             vec![arg_s("a"), abs("list")],                              // f('a', $.list)
             vec![FnArg::Literal(Literal::Null), abs("list")],           // f(null, $.list)
+            vec![FnArg::Literal(Literal::Float(2.0)), abs("list")],     // f(2.0, $.list)   (a whole-valued float is a float)
+            vec![FnArg::Literal(Literal::Float(2.5)), abs("list")],     // f(2.5, $.list)
+            vec![FnArg::Literal(Literal::Int(2)), abs("list")],         // f(2, $.list)
             vec![arg_rel(vec![]), arg_s("a")],                          // second argument a string
             vec![abs("list"), arg_rel(vec![])],                         // f($.list, @)
             vec![abs("list"), abs("list")],                             // f($.list, $.list)
@@ -232,6 +240,10 @@ pub mod gen {
             nt(rel(vec![name("'a\\/b'")])),                                                                                                                                             // !@['a\/b']
             // round 5: `<=` / `>=` between operands that are equal but not ordered (booleans, null, containers, two empty results), literal on the LEFT
             // of every operator, literal FIRST arguments of functions
+            cmp(Eq(cur(vec![]), rootq(vec![sn("0")]))),                        // @ == $['0']   (a NAME applied to an array selects nothing)
+            cmp(Eq(cur(vec![]), rootq(vec![sn("a"), SingularQuerySegment::Index(0)]))),   // @ == $.a[0]   (an INDEX applied to an object selects nothing)
+            cmp(Eq(cur(vec![]), rootq(vec![sn("a/b")]))),                      // @ == $['a/b']
+            cmp(Eq(cur(vec![]), rootq(vec![sn("1")]))),                        // @ == $['1']
             cmp(Lte(cur(vec![]), Comparable::Literal(Literal::Bool(true)))),   // @ <= true
             cmp(Gte(cur(vec![]), Comparable::Literal(Literal::Null))),         // @ >= null
             cmp(Lte(cur(vec![sn("a")]), cur(vec![sn("b")]))),                  // @.a <= @.b
